@@ -22,6 +22,7 @@ GNext ==
        \/ (Count("ReadToEnd", i) = 0 /\ ReadToEnd(i) /\ Call("ReadToEnd", i))
        \/ (Count("ReadAfterClose", i) = 0 /\ ReadAfterClose(i) /\ Call("ReadAfterClose", i))
        \/ (closes[i] < MaxCloses /\ Close(i) /\ Call("Close", i))
+       \/ (closes[i] + 2 <= MaxCloses /\ Count("ConcClose", i) = 0 /\ ConcClose(i) /\ Call("ConcClose", i))
 
 GSpec == GInit /\ [][GNext]_gvars
 
